@@ -1,7 +1,7 @@
 from typing import Dict, Callable
 
 from ..types import *
-from ..sim import Environment, ProcessGenerator, PriorityStore, SimTime
+from ..sim import Environment, ProcessGenerator, PriorityStore, PriorityItem, SimTime
 from ..packet import Packet
 from .base import Scheduler
 
@@ -25,6 +25,7 @@ class VC(Scheduler):
         self.vc: Dict[ClassId, SimTime] = dict()
         self.aux_vc: Dict[ClassId, SimTime] = dict()
         self.store = PriorityStore(env)
+        self.arrival_seq = 0
         for class_id in vticks.keys():
             self.aux_vc[class_id] = 0
             self.vc[class_id] = 0
@@ -32,8 +33,8 @@ class VC(Scheduler):
 
     def run(self, env: Environment) -> ProcessGenerator:
         while True:
-            packet: Packet = yield self.store.get()
-            yield env.process(self.send_packet(packet))
+            item: PriorityItem = yield self.store.get()
+            yield env.process(self.send_packet(item.item))
 
     def put(self, packet: Packet):
         class_id = self.flow2class(packet.flow_id)
@@ -53,4 +54,5 @@ class VC(Scheduler):
         self.add_packet_to_queue(packet)
         # transmite packets by the order of increasing stamp values
         # use aux_vc as stamp value
-        self.store.put((self.aux_vc[class_id], packet))
+        self.arrival_seq += 1
+        self.store.put(PriorityItem((self.aux_vc[class_id], self.arrival_seq), packet))
